@@ -84,6 +84,39 @@ def gen_bnf_grammar(rng, allow_langle: bool) -> G.Grammar:
         if i + 1 < n and not any(nts[i + 1] in a for a in alts):
             alts.append(gen_terminal(rng, False).replace("<", "(") + nts[i + 1])
         g[nt] = list(dict.fromkeys(alts))
+    if allow_langle and rng.random() < 0.3:
+        # a rule that is not reachable from <start> (ISLa accepts such grammars and prunes them where needed)
+        g["<u>"] = [rng.choice(["x<y", "<", "a<", "<=b"]), "u"]
+    return g
+
+
+def gen_langle_named_grammar(rng) -> G.Grammar:
+    """grammars that themselves define nonterminals called <langle>, <langle_0>, ... (as every grammar that went
+    through parse_bnf once does), with "<" as the only or as one of several alternatives, and that use "<" inside
+    other terminals as well"""
+    names = rng.sample(["<langle>", "<langle_0>", "<langle_1>", "<langle_7>"], rng.randint(1, 2))
+    g: G.Grammar = {"<start>": ["<a>"]}
+    body = []
+    for _ in range(rng.randint(2, 4)):
+        body.append(rng.choice(names + ["a", "b", "a<b", "<", "<=", "x"]))
+    alt = ""
+    for sym in body:
+        alt += sym
+    g["<a>"] = [alt, rng.choice(["a", "b<", "<a>b"]) if rng.random() < 0.6 else "x"]
+    if G.RE_NT.findall(g["<a>"][0]) != [s for s in body if s in names]:
+        g["<a>"][0] = "".join(s if s in names else s.replace("<", "(") for s in body)
+    g["<a>"] = [a for a in dict.fromkeys(g["<a>"]) if a != "<a>b"] + (["<a>b"] if "<a>b" in g["<a>"] else [])
+    for nm in names:
+        k = rng.random()
+        if k < 0.35:
+            g[nm] = ["<"]
+        elif k < 0.7:
+            g[nm] = ["<", rng.choice(["&lt;", "=", "(", "a"])]
+        else:
+            g[nm] = [rng.choice(["=", "a"]), "<", rng.choice(["b<", "<<"])]
+    for nm in names:
+        if not any(nm in a for a in g["<a>"]):
+            g["<a>"].append("a" + nm)
     return g
 
 
@@ -133,7 +166,11 @@ def check_grammar(ctx: Ctx, g: G.Grammar, origin: str):
                 replay,
             )
         return
-    # with '<': same language from every original nonterminal
+    # with '<': a well-formed grammar again, and the same language from every original nonterminal
+    if not well_formed(g2):
+        undefined = sorted({sym for alts in G.canon(g2).values() for alt in alts for sym in alt if G.is_nt(sym) and sym not in g2})
+        ctx.violation("langle:undefined-nonterminal", f"the re-parsed grammar refers to undefined nonterminals {undefined}", replay)
+        return
     sigma = []
     for alts in G.canon(g).values():
         for alt in alts:
@@ -148,6 +185,10 @@ def check_grammar(ctx: Ctx, g: G.Grammar, origin: str):
     if not G.is_cyclic(g):
         for _ in range(6):
             strings.append(T.tree_str(T.gen_tree(ctx.rng, c, "<start>", 5, T.IdGen())))
+        for nt0 in g:
+            # words of every nonterminal, also of those that <start> does not reach
+            for _ in range(2):
+                strings.append(T.tree_str(T.gen_tree(ctx.rng, c, nt0, 4, T.IdGen())))
     strings = list(dict.fromkeys(s for s in strings if len(s) <= 30))
     for nt in g:
         def lang(gr, start):
@@ -224,7 +265,11 @@ def run(ctx: Ctx):
     n = 250 if quick else 5000
     for i in range(n):
         ctx.check_time()
-        g = gen_bnf_grammar(ctx.rng, allow_langle=(i % 4 == 0))
+        if i % 10 == 9:
+            g = gen_langle_named_grammar(ctx.rng)
+            ctx.count("generator", "langle-named")
+        else:
+            g = gen_bnf_grammar(ctx.rng, allow_langle=(i % 4 == 0))
         check_grammar(ctx, g, "generated")
         if i < 3:
             ctx.sample({"grammar": g})
